@@ -30,6 +30,54 @@ EVSE_FNS = [S + x for x in (
 SHARDS[S + "get_evse_by_type"] = 8
 
 PLAN = {
+    "C02": dict(
+        level="other",
+        functions=BATTERY_FNS + [E + "EV.charge", E + "EV.reset"] + SET_PILOT,
+        bounded=[dict(module="rt.drivers", fn="sim_monitor", label="whole-simulation ledger clauses")],
+        text="PROVED (all inputs, no bound): every battery charge variant updates the stored charge by exactly rate x V/1000 x period/60 "
+             "for the rate it returns; EV.charge adds the same energy to the session's delivered energy and records the rate; the EV "
+             "invariant 'delivered = battery charge - initial charge' is preserved by charge and re-established by reset; set_pilot "
+             "performs exactly one charge of the occupant (and none when vacant or rejected). BOUNDED (run-time contracts on the real "
+             "Simulator over seeded scenarios): the accumulation over a run - delivered = sum over connected periods of recorded rate x "
+             "V x dt = battery gain, vacant => recorded 0, peak = max aggregate current, total energy = integral of aggregate power, "
+             "analysis totals.",
+        note="floats as reals in the proved part; the accumulation over Simulator.run (numpy column writes) is only monitored, with the "
+             "bound stated in the evidence; an EV's battery has no other owner during a run",
+        explanation="proved: per-call ledger contracts of battery/EV/EVSE; bounded: whole-run accumulation clauses via rt.simcheck",
+        technique="contract-based deductive verification of the per-call ledger (pyvc, z3) + run-time contract monitor (bounded) for the run-level sums",
+    ),
+    "C01": dict(
+        level="other",
+        bounded=[dict(module="rt.drivers", fn="sim_monitor", label="lifecycle clauses on whole simulations")],
+        text="BOUNDED so far: run-time contracts on the real Simulator over seeded scenarios check every clause of the property "
+             "(each session plugged once at arrival and unplugged once at departure, history sorted by time then precedence, occupancy at "
+             "every period equals [arrival, departure), queue empty / stations vacant / iteration = last event + 1 at the end).",
+        note="no obligation is proved for C01 yet; everything reported is bounded by the scenario space written in the evidence",
+        explanation="bounded run-time contract monitor only (rt.simcheck clauses C01.*)",
+        technique="run-time contract monitor on the real functions (bounded stand-in); deductive obligations pending",
+    ),
+    "C04": dict(
+        level="other",
+        bounded=[dict(module="rt.drivers", fn="sim_monitor", label="schedule overlay clauses on whole simulations")],
+        text="BOUNDED so far: the recorded and the applied pilot of every station and period equal the overlay of the submitted "
+             "schedules (ghost matrix rebuilt from the schedules the scheduler returned: omitted stations 0, empty schedule no change, "
+             "uncovered periods 0, entry order irrelevant, over-long schedules at any period), set_pilot receives the station's voltage and "
+             "the period, exactly once per station and period.",
+        note="no obligation is proved for C04 yet; bounded by the scenario space written in the evidence",
+        explanation="bounded run-time contract monitor only (rt.simcheck clauses C04.*)",
+        technique="run-time contract monitor on the real functions (bounded stand-in); deductive obligations pending",
+    ),
+    "C05": dict(
+        level="other",
+        bounded=[dict(module="rt.drivers", fn="sim_monitor", label="scheduler invocation / observation / isolation clauses")],
+        text="BOUNDED so far: at every scheduler invocation of every seeded scenario the monitor checks the invocation condition "
+             "(iff event or max_recompute elapsed, once per period, after the period's events), every observed quantity against the "
+             "simulator's truth (period, datetime, active sessions, previous rates / pilots / peak, infrastructure, advertised limits) and "
+             "isolation (everything handed out is scribbled over and the simulator state digest must not change).",
+        note="no obligation is proved for C05 yet; bounded by the scenario space written in the evidence",
+        explanation="bounded run-time contract monitor only (rt.simcheck clauses C05.*)",
+        technique="run-time contract monitor on the real functions (bounded stand-in); deductive obligations pending",
+    ),
     "C13": dict(
         level="proof",
         text="Every validity predicate (_valid_rate of the three EVSE classes) is proved equal to the acceptance predicate written "
@@ -42,6 +90,7 @@ PLAN = {
              "set/sorted axioms; the Interface/network-side advertised-value cache is covered under C05/C12 when claimed",
         functions=EVSE_FNS + SET_PILOT,
         lemmas=["C13.advertised_is_accepted"],
+        bounded=[dict(module="rt.fnmon", fn="evse_monitor", label="EVSE boundary monitor (IEEE specials the real-arithmetic proof cannot see)")],
         trusted=["np.isclose(a, b, atol, rtol=0) <=> |a-b| <= atol ; np.any over a list is the disjunction (numpy axioms)",
                  "set()/add/sorted(list(set)) yield the strictly increasing list of the distinct members (builtin axioms)"],
     ),
